@@ -128,8 +128,8 @@ func c03Solo(c c03Case) (o *c03Obs) {
 }
 
 func c03ObsString(o *c03Obs) (s string) {
-	return fmt.Sprintf("finder=%s(%q,%q) find_calls=%d next_calls=%d next=(%q,%q) err=%q panic=%q",
-		o.Kind, o.Prof, o.Dev, o.FindCalls, o.NextCalls, o.NextProf, o.NextDev, o.MwErr, o.Panic)
+	return fmt.Sprintf("finder=%s(%q,%q) find_calls=%d next_calls=%d next=(%q,%q from %s asking %s) err=%q panic=%q",
+		o.Kind, o.Prof, o.Dev, o.FindCalls, o.NextCalls, o.NextProf, o.NextDev, o.NextRemoteIP, o.NextHost, o.MwErr, o.Panic)
 }
 
 func TestVerifC03Seq(t *testing.T) {
